@@ -162,7 +162,7 @@ def _eval(task):
 def two_scope_cases():
     T = sqlgen.T
     base = lambda n: {"k": "base", "t": T(n, None), "alias": None, "as": False}  # noqa: E731
-    sel = lambda items, rels: {"items": items, "from": {"shape": "join", "rels": rels}, "where": None, "tail": None}  # noqa: E731
+    sel = lambda items, rels: {"items": items, "from": {"shape": "join" if len(rels) == 2 else "join3", "rels": rels}, "where": None, "tail": None}  # noqa: E731
     q1 = lambda *ss: {"ctes": [], "branches": list(ss), "ops": ["UNION ALL"] * (len(ss) - 1)}  # noqa: E731
     col = lambda n, a=None: {"e": ["col", None, n], "alias": a}  # noqa: E731
     out = []
@@ -181,6 +181,14 @@ def two_scope_cases():
                 for name, q in shapes.items():
                     st = {"kind": "insert", "target": T("tgt"), "collist": None, "q": q}
                     out.append((f"{name}/{'+'.join(second)}/{ca},{cb}", st))
+    # one scope, tables of the same bare name in different schemas (lookups must be keyed by schema AND name)
+    based = lambda n, sch: {"k": "base", "t": T(n, sch), "alias": None, "as": False}  # noqa: E731
+    for rels in ([base("t1"), based("t1", "s1")], [based("t1", "s1"), base("t1")], [base("t1"), based("t1", "s1"), based("t1", "s2")]):
+        for ca in ("c1", "c2"):
+            label = "+".join((r["t"]["s"] or "main") + ".t1" for r in rels)
+            out.append((f"samename/{label}/{ca},-", {"kind": "insert", "target": T("tgt"), "collist": None, "q": q1(sel([col(ca)], rels))}))
+            out.append((f"samename-star/{label}/{ca},-", {"kind": "insert", "target": T("tgt"), "collist": None,
+                                                         "q": q1(sel([{"e": ["star", None], "alias": None}, col(ca, "x1")], rels))}))
     return out
 
 
@@ -215,12 +223,67 @@ RUNS = [
     "CREATE VIEW main.t2 AS SELECT c1 AS v1 FROM main.t1;\nINSERT INTO main.tgt SELECT v1, c2 FROM main.t2 JOIN main.x ON 1 = 1",
     "INSERT INTO main.tgt SELECT c2 FROM main.t2 JOIN main.x ON 1 = 1",
 ]
+RUNS += [
+    # runs that fail half-way: what they registered must not survive them
+    "CREATE TABLE main.x AS SELECT c7, c8 FROM main.t1;\nSELECT FROM WHERE",
+    "CREATE TABLE main.x AS SELECT c9 FROM main.t1;\nEXPLAIN SELECT 1",
+]
 RUN_KNOWLEDGE = [
     {"main.t1": ["c1", "c2", "id"]},
     {"main.t1": ["c1", "c2", "id"], "main.t2": ["c2", "id"]},
     {"main.x": ["k1", "k2"], "main.t2": ["c1", "id"]},
     {"main.unrelated": ["id"]},
 ]
+
+
+# ------------------------------------------------------------------------------------------------
+# (vi) an explicit column list always wins - in every syntactic position a dialect allows it
+# ------------------------------------------------------------------------------------------------
+COLLIST_FORMS = [
+    ("ansi", "INSERT INTO main.tgt (b, c) SELECT c1, c2 FROM main.t1"),
+    ("ansi", "INSERT INTO main.tgt (b, c) (SELECT c1, c2 FROM main.t1)"),
+    ("ansi", "INSERT INTO main.tgt (b, c) WITH q AS (SELECT c1, c2 FROM main.t1) SELECT c1, c2 FROM q"),
+    ("ansi", "INSERT INTO main.tgt (b, c) SELECT c1, c2 FROM main.t1 UNION ALL SELECT c3, c4 FROM main.t2"),
+    ("postgres", "INSERT INTO main.tgt AS tt (b, c) SELECT c1, c2 FROM main.t1"),
+    ("postgres", "INSERT INTO main.tgt (b, c) SELECT c1, c2 FROM main.t1 ON CONFLICT DO NOTHING"),
+    ("postgres", "INSERT INTO main.tgt (b, c) SELECT c1, c2 FROM main.t1 RETURNING b"),
+    ("tsql", "INSERT INTO main.tgt WITH (TABLOCK) (b, c) SELECT c1, c2 FROM main.t1"),
+    ("tsql", "INSERT main.tgt (b, c) SELECT c1, c2 FROM main.t1"),
+    ("sparksql", "INSERT INTO TABLE main.tgt (b, c) SELECT c1, c2 FROM main.t1"),
+    ("sparksql", "INSERT OVERWRITE TABLE main.tgt (b, c) SELECT c1, c2 FROM main.t1"),
+    ("sparksql", "INSERT INTO main.tgt PARTITION (dt = 1) (b, c) SELECT c1, c2 FROM main.t1"),
+    ("hive", "INSERT INTO TABLE main.tgt PARTITION (dt = 1) (b, c) SELECT c1, c2 FROM main.t1"),
+    ("mysql", "INSERT IGNORE INTO main.tgt (b, c) SELECT c1, c2 FROM main.t1"),
+    ("mysql", "INSERT INTO main.tgt (b, c) SELECT c1, c2 FROM main.t1 ON DUPLICATE KEY UPDATE b = 1"),
+    ("bigquery", "INSERT main.tgt (b, c) SELECT c1, c2 FROM main.t1"),
+    ("snowflake", "INSERT OVERWRITE INTO main.tgt (b, c) SELECT c1, c2 FROM main.t1"),
+    ("oracle", "INSERT INTO main.tgt tt (b, c) SELECT c1, c2 FROM main.t1"),
+    ("redshift", "INSERT INTO main.tgt (b, c) SELECT c1, c2 FROM main.t1"),
+    ("duckdb", "INSERT OR REPLACE INTO main.tgt (b, c) SELECT c1, c2 FROM main.t1"),
+    ("sqlite", "INSERT OR IGNORE INTO main.tgt (b, c) SELECT c1, c2 FROM main.t1"),
+    ("trino", "INSERT INTO main.tgt (b, c) SELECT c1, c2 FROM main.t1"),
+    ("clickhouse", "INSERT INTO main.tgt (b, c) SELECT c1, c2 FROM main.t1"),
+    ("teradata", "INSERT INTO main.tgt (b, c) SELECT c1, c2 FROM main.t1"),
+    ("non-validating", "INSERT INTO main.tgt (b, c) SELECT c1, c2 FROM main.t1"),
+]
+COLLIST_KNOWLEDGE = [
+    {"main.tgt": ["x", "y"]},
+    {"main.tgt": ["c", "b", "extra"]},
+    {"main.tgt": ["x", "y", "z"], "main.t1": ["c1", "c2", "id"]},
+]
+
+
+def _collist(task):
+    dialect, sql, K, kind = task
+    base = observe.observe(sql, dialect, level="columns")
+    if "exception" in base:
+        return {"skip": "rejected"}
+    if {t.rsplit(".", 1)[1] for _, t in base["pairs"]} != {"b", "c"}:
+        return {"skip": "list-not-recognised-without-metadata"}  # a single-statement matter (C02/C09), nothing metadata does
+    obs = observe.observe(sql, dialect, provider=make_provider(kind, K), level="columns")
+    if obs == base:
+        return {"ok": True}
+    return {"ok": False, "with_metadata": obs, "without": base}
 
 
 def _history(task):
@@ -283,7 +346,7 @@ def run(tier: str, opts: dict) -> int:
     n_two = 0
     for label, st in two_scope_cases():
         for tags, K in two_scope_knowledge(st):
-            for kind in (["dummy", "sqlalchemy"] if tier != "quick" else ["dummy"]):
+            for kind in (["dummy", "sqlalchemy"] if tier != "quick" or label.startswith("samename") else ["dummy"]):
                 tasks.append((st, "2s:" + label + ":" + tags, K, kind, False))
                 n_two += 1
     res = pmap(_eval, tasks, chunk=8)
@@ -320,6 +383,17 @@ def run(tier: str, opts: dict) -> int:
     for t, r in zip(htasks, pmap(_history, htasks, chunk=8)):
         if not r["ok"]:
             rep.violation("reused-provider-answers-differently", {"provider": t[0], "knowledge": t[1], "history": [RUNS[i] for i in t[2]], "history_index": list(t[2])}, r["bad"][0])
+    # (vi) explicit column list in every position x knowledge about the target
+    ctasks = [(d, sql, K, kind) for d, sql in COLLIST_FORMS for K in COLLIST_KNOWLEDGE for kind in ("dummy", "sqlalchemy")]
+    n_collist = n_collist_skipped = 0
+    for t, r in zip(ctasks, pmap(_collist, ctasks, chunk=4)):
+        if r.get("skip"):
+            n_collist_skipped += 1
+            continue
+        n_collist += 1
+        if not r["ok"]:
+            rep.violation("explicit-column-list-does-not-win", {"dialect": t[0], "sql": t[1], "knowledge": t[2], "provider": t[3], "collist_form": True},
+                          {"with_metadata": r["with_metadata"], "without": r["without"]})
     for t in tasks[:: max(1, len(tasks) // 5)][:5]:
         rep.sample({"sql": sqlgen.render(t[0], sqlgen.R(qualify=SCHEMA)), "knowledge": t[2], "assignment": t[1], "provider": t[3]})
     rep.coverage.update(
@@ -330,13 +404,16 @@ def run(tier: str, opts: dict) -> int:
         "{unknown, known by position (INSERT, CTAS, CREATE VIEW), known superset of the column list} x provider kind; (iv) statements with two join scopes "
         "(union branch, scalar subquery, EXISTS subquery, CTE; disjoint or overlapping tables; every choice of the two unqualified columns) x every assignment of "
         "{unknown, has c1, has c2, has neither} to their tables; (v) every history of up to "
-        f"{L} runs from a menu of {len(RUNS)} scripts on ONE provider object x {len(RUN_KNOWLEDGE)} knowledge maps x both provider kinds, each run compared with a fresh provider; non-trivial = >= 2 known tables or an O/L assignment",
+        f"{L} runs from a menu of {len(RUNS)} scripts on ONE provider object x {len(RUN_KNOWLEDGE)} knowledge maps x both provider kinds, each run compared with a fresh provider; (vi) {len(COLLIST_FORMS)} dialect-specific positions of an explicit INSERT column list x {len(COLLIST_KNOWLEDGE)} knowledge maps about the target x both providers, "
+        "answer must equal the one without metadata; non-trivial = >= 2 known tables or an O/L assignment",
         exhaustive=True,
         bound_completed={"deviations": D},
         by_provider_kind=by_kind,
         statements=len(cases),
         two_scope_evaluations=n_two,
         provider_reuse_histories=len(htasks),
+        column_list_forms_checked=n_collist,
+        column_list_forms_outside=n_collist_skipped,
     )
     rep.assumptions += [
         "reference semantics refsem.columns parameterised by the knowledge map; well-formedness rules of DESIGN.md C13",
@@ -347,6 +424,14 @@ def run(tier: str, opts: dict) -> int:
 
 def replay(body: dict, opts: dict) -> int:
     c = body["case"]
+    if c.get("collist_form"):
+        r = _collist((c["dialect"], c["sql"], c["knowledge"], c["provider"]))
+        print(json.dumps(r, indent=1, default=str)[:3000])
+        if r.get("ok") or r.get("skip"):
+            print("OK on replay")
+            return 0
+        print(f"VIOLATION property=C13 replay={opts.get('path', '<replayed>')}")
+        return 1
     if "history_index" in c:
         r = _history((c["provider"], c["knowledge"], c["history_index"]))
         print(json.dumps(r, indent=1, default=str)[:3000])
